@@ -289,6 +289,74 @@ func c20Exposure(c *vk.Ctx) {
 	}
 }
 
+// c20Labels: the location label attached to each client's series in the real collectors is
+// decided by that client's address alone - also when clients with similar addresses follow
+// each other (shared prefixes, zoned and unzoned forms, IPv4 after IPv4-mapped).
+func c20Labels(c *vk.Ctx) {
+	r := c.Rng
+	for round := 0; round < c.N(20, 100); round++ {
+		db := &fakeDB{}
+		sm, err := oprom.NewServiceMetrics(db)
+		if err != nil {
+			fatalf("NewServiceMetrics: %v", err)
+		}
+		reg := prometheus.NewRegistry()
+		reg.MustRegister(sm)
+		// a family of addresses sharing their leading groups, in random order
+		var ips []net.IP
+		switch round % 4 {
+		case 0:
+			for i := 0; i < 6; i++ {
+				ips = append(ips, net.ParseIP(fmt.Sprintf("2001:db8:%x::%x", 1+r.Intn(5), 1+r.Intn(250))))
+			}
+		case 1:
+			ips = []net.IP{net.IPv6loopback, net.ParseIP("::ffff:8.8.8.8"), net.ParseIP("::ffff:10.1.2.3"), net.ParseIP(fmt.Sprintf("::%x", 2+r.Intn(200)))}
+		case 2:
+			for i := 0; i < 6; i++ {
+				ips = append(ips, net.IPv4(45, 90, byte(r.Intn(3)), byte(r.Intn(256))))
+			}
+		default:
+			ips = []net.IP{net.ParseIP("fe80::1"), net.ParseIP(fmt.Sprintf("fe80:%x::1", 1+r.Intn(99))), net.ParseIP("fec0::1"), net.ParseIP("2001:db8::1"), net.ParseIP("fe00::1")}
+		}
+		r.Shuffle(len(ips), func(i, j int) { ips[i], ips[j] = ips[j], ips[i] })
+		last := map[string]float64{}
+		for _, ip := range ips {
+			want, _ := expectedLocation(ip, true)
+			via := "tcp"
+			if r.Intn(2) == 0 {
+				via = "udp"
+			}
+			if via == "tcp" {
+				tm := sm.AddOpenTCPConnection(&fakeNetConn{remote: &net.TCPAddr{IP: ip, Port: 40000 + r.Intn(9999)}, local: &net.TCPAddr{IP: net.IPv4(203, 0, 113, 10), Port: 443}})
+				tm.AddAuthenticated("k")
+				tm.AddClosed("OK", metrics.ProxyMetrics{ClientProxy: 10}, time.Millisecond)
+			} else {
+				um := sm.AddUDPNatEntry(&net.UDPAddr{IP: ip, Port: 40000 + r.Intn(9999)}, "k")
+				um.AddPacketFromClient("OK", 10, 5)
+			}
+			mfs, _ := reg.Gather()
+			name := "tcp_connections_opened"
+			if via == "udp" {
+				name = "udp_packets_from_client_per_location"
+			}
+			now := counterBy(mfs, name, "location")
+			var grew []string
+			for loc, v := range now {
+				if v > last[via+"/"+loc] {
+					grew = append(grew, loc)
+				}
+				last[via+"/"+loc] = v
+			}
+			c.Eval(fmt.Sprintf("labels|family=%d|%s|%s", round%4, via, want))
+			if len(grew) != 1 || grew[0] != want {
+				c.Violation("C20/client-series-labelled-with-another-clients-location", map[string]any{"client": ip.String(), "expected_location": want, "series_that_grew": grew, "via": via, "clients_before": fmt.Sprint(ips)})
+				return
+			}
+			c.Count("per_client_label_checks", 1)
+		}
+	}
+}
+
 func init() {
 	vk.Register(&vk.Spec{
 		ID:    "C20",
@@ -309,6 +377,8 @@ func init() {
 			c.Require("exposure_rounds")
 			c20Lookup(c)
 			c20Exposure(c)
+			c.Require("per_client_label_checks")
+			c20Labels(c)
 			c20RealSockets(c)
 		},
 	})
